@@ -292,7 +292,8 @@ func checkC17(c *core.Ctx) error {
 		"(engine eff, followed into callees and, through class-hierarchy resolution, into the implementations of the repository's interfaces) is computed and every written location reachable from a captured variable " +
 		"must be reached through an access path that carries an ownership tag: THREAD (indexed by GetThreadId() of the job's own pool argument) or JOB (indexed by the job index or a per-iteration copy of the submitting loop's variable). " +
 		"Thread-owned variables must be indexed the same way at every occurrence inside the job (R2), are touched by the submitter only before the submission or after Wait of the same group (R3), " +
-		"every submission/Wait error is propagated as a non-nil error (R4), and per-thread slices are allocated with NumberOfThreads() elements (R5). The rules hold for every pool size and interleaving because they do not depend on either."
+		"every submission/Wait error is propagated as a non-nil error (R4), and per-thread slices are allocated with NumberOfThreads() elements (R5). The rules hold for every pool size and interleaving because they do not depend on either." +
+		" (R9, R10) The mixture EM step and the Baum-Welch step are interpreted symbolically under several job-to-thread schedules with stale per-thread slots; the results must be the terms of the sequential run and free of stale symbols."
 	c.Rule("C17.R0", "no go statement, channel operation or sync primitive in the library: the thread pool API is the only source of concurrency", 40)
 	c.Rule("C17.R1", "every location a pool job may write through a captured variable is thread-owned ([p.GetThreadId()] of the job's pool), job-owned (job index / per-iteration copy) or local to the job", 60)
 	c.Rule("C17.R2", "inside a job, a variable with thread-owned writes is only ever used through its [p.GetThreadId()] element (no read of another thread's accumulator)", 10)
@@ -301,6 +302,8 @@ func checkC17(c *core.Ctx) error {
 	c.Rule("C17.R7", "in functions that submit jobs every counted loop outside the job bodies uses its induction variable (per-thread / per-component merge and reset loops visit every element)", 20)
 	c.Rule("C17.R9", "the mixture EM step, interpreted symbolically under different job-to-thread schedules with stale thread slots, yields the result of the sequential run (no lost or doubly counted contribution, idle slots are not merged)", 4)
 	checkEmStep(c, true)
+	c.Rule("C17.R10", "the Baum-Welch step, interpreted symbolically under different record-to-thread schedules with stale thread slots, yields the result of the sequential run", 2)
+	checkBaumWelch(c, true)
 	c.Rule("C17.R8", "a job uses no pool handle other than its own pool argument (thread ids come from the executing worker)", 30)
 	c.Rule("C17.R5", "slices and vectors indexed by GetThreadId() are allocated with NumberOfThreads() elements of a pool", 10)
 
